@@ -52,8 +52,11 @@ const NOISE_PARAMETERS: &str = "Noise_XX_25519_ChaChaPoly_SHA256";
 /// Prefix of static key signatures for domain separation.
 pub(crate) const STATIC_KEY_DOMAIN: &str = "noise-libp2p-static-key:";
 
-/// Maximum Noise message size.
-const MAX_NOISE_MSG_LEN: usize = 65536;
+/// Maximum Noise message size, including the 16-byte authentication tag.
+///
+/// The Noise specification (and `snow`) limits messages to 65535 bytes, which is also the
+/// largest value that fits into the 2-byte length prefix.
+const MAX_NOISE_MSG_LEN: usize = 65535;
 
 /// Space given to the encryption buffer to hold key material.
 const NOISE_EXTRA_ENCRYPT_SPACE: usize = 16;
